@@ -89,18 +89,25 @@ def freq_axis_roundtrip(cx, N, atype):
 
 
 @harness("C13", "ft_direct_sum_complete",
-         quick=[dict(N=n) for n in (2, 3, 4, 5, 6)],
-         thorough=[dict(N=n) for n in (2, 3, 4, 5, 6, 8, 10, 12, 20, 24)],
+         quick=[dict(N=n) for n in (2, 3, 4, 5, 6)] + [dict(N=4, window=True), dict(N=5, window=True)],
+         thorough=[dict(N=n) for n in (2, 3, 4, 5, 6, 8, 10, 12, 20, 24)] +
+                  [dict(N=n, window=True) for n in (3, 4, 5, 6, 8, 12)],
          functions=[F_DF + ":DFunction.get_Fourier_transform", F_T + ":TimeAxis.get_FrequencyAxis"],
-         bound="complete axes centred at zero, N<=6 (thorough: 2,3,4,5,6,8,10,12,20,24 - the orders whose roots of unity have closed radical forms in sqrt2, sqrt3, sqrt5); step>0 symbolic; data arbitrary complex",
-         out="window functions; lengths beyond the bound")
-def ft_direct_sum_complete(cx, N):
+         bound="with window=True the transform of f*w for an arbitrary real window function w; "
+               "complete axes centred at zero, N<=6 (thorough: 2,3,4,5,6,8,10,12,20,24 - the orders whose roots of unity have closed radical forms in sqrt2, sqrt3, sqrt5); step>0 symbolic; data arbitrary complex",
+         out="lengths beyond the bound")
+def ft_direct_sum_complete(cx, N, window=False):
     from quantarhei import TimeAxis, DFunction
     step = cx.real("step", 0.1, 2.0)
     cx.assume(step > 0, "axis step > 0")
     f = cx.cplx_array("f", N)
     t = TimeAxis(-(N // 2) * step, N, step, atype="complete")
-    F = DFunction(t, f).get_Fourier_transform()
+    if window:
+        wd = cx.real_array("win", N)
+        F = DFunction(t, f).get_Fourier_transform(window=DFunction(t, wd))
+        f = f * wd
+    else:
+        F = DFunction(t, f).get_Fourier_transform()
     w = F.axis
     cx.prove("length", w.length == N)
     ref = direct_sum(cx, "ft", t.data, w.data, f, step, N)
@@ -108,20 +115,26 @@ def ft_direct_sum_complete(cx, N):
 
 
 @harness("C13", "ft_direct_sum_upper",
-         quick=[dict(N=n) for n in (1, 2, 3, 4)],
-         thorough=[dict(N=n) for n in (1, 2, 3, 4, 5, 6, 10, 12)],
+         quick=[dict(N=n) for n in (1, 2, 3, 4)] + [dict(N=3, window=True)],
+         thorough=[dict(N=n) for n in (1, 2, 3, 4, 5, 6, 10, 12)] + [dict(N=n, window=True) for n in (2, 3, 4, 6)],
          functions=[F_DF + ":DFunction.get_Fourier_transform", F_T + ":TimeAxis.get_FrequencyAxis"],
          bound="upper-half axes starting at 0, N<=4 (thorough <=6) points (transform length 2N); step>0 symbolic; "
-               "data arbitrary complex with the Hermitian extension f(-t)=conj f(t)",
-         out="window functions; lengths beyond the bound")
-def ft_direct_sum_upper(cx, N):
+               "data arbitrary complex with the Hermitian extension f(-t)=conj f(t); window=True: times an "
+               "arbitrary real window",
+         out="lengths beyond the bound")
+def ft_direct_sum_upper(cx, N, window=False):
     from quantarhei import TimeAxis, DFunction
     step = cx.real("step", 0.1, 2.0)
     cx.assume(step > 0, "axis step > 0")
     f = cx.cplx_array("f", N)
     f[0] = f[0].real + 0 * f[0]     # Hermitian-extendable data: f(0) = conj f(0)
     t = TimeAxis(0.0, N, step)
-    F = DFunction(t, f).get_Fourier_transform()
+    if window:
+        wd = cx.real_array("win", N)
+        F = DFunction(t, f).get_Fourier_transform(window=DFunction(t, wd))
+        f = f * wd
+    else:
+        F = DFunction(t, f).get_Fourier_transform()
     w = F.axis
     cx.prove("length", w.length == 2 * N)
     ref = direct_sum(cx, "ft", t.data, w.data, f, step, 2 * N, hermitian_ext=True)
